@@ -21,7 +21,7 @@ pub fn prefiltered_legal_exact<S: Src, const SIDE: u8, const KG: u8>(s: &mut S) 
     vassert!("prefiltered legality (pins, checks, e.p.) = legal by the rules", got == want);
     vcover!("legal move", want);
     vcover!("semilegal move that leaves the king attacked", !want);
-    vcover!("legal move while in check", want && in_check_ref(&p));
+    vcover!("legal move while in check (not castling)", KG == KG_CASTLING || (want && in_check_ref(&p)));
 }
 
 /// `validate` and `is_legal_unchecked` (no prefilter)
@@ -45,8 +45,9 @@ pub fn validate_exact<S: Src, const SIDE: u8, const KG: u8>(s: &mut S) {
     } else {
         vassert!("not semilegal is reported as NotSemiLegal", got == Err(moves::ValidateError::NotSemiLegal));
     }
-    vcover!("legal move", want);
-    vcover!("semilegal but illegal", semilegal_ref(&p, m) && !want);
+    vcover!("legal move (own men)", KG == KG_FOREIGN || want);
+    vcover!("semilegal but illegal (own men)", KG == KG_FOREIGN || (semilegal_ref(&p, m) && !want));
+    vcover!("not semilegal", !semilegal_ref(&p, m));
 }
 
 /// third way: apply the candidate and test whether the mover's king is attacked
